@@ -213,6 +213,10 @@ func (p *Pool) worker() {
 		}
 		x := NewExplorer(p.Prog, j.harness.Name, getSolver(j.harness.Solver))
 		x.Cross = cross
+		if j.harness.Solver == "z3-lia" && len(cross) > 0 {
+			// the integer encoding is cross-checked against cvc5's own bit-vector-to-integer translation
+			x.Cross = []*Solver{getSolver("cvc5-int")}
+		}
 		if p.Profile {
 			x.ForkSites = map[string]int{}
 		}
